@@ -132,6 +132,43 @@ func c04HistGen(t *rapid.T) interface{} {
 	for i := 0; i < n; i++ {
 		c.Ops = append(c.Ops, c04Op{Kind: lib.PickStr(t, kinds, "kind"), I: lib.IntN(t, 0, 40, "i"), Chunk: lib.PickInt(t, []int{1, 2, 3, 7, 64, 1019, 1024, 1025, 4096}, "chunk")})
 	}
+	switch lib.IntN(t, 0, 3, "special") {
+	case 0:
+		// inputs that leave non-ASCII bytes everywhere in any reused scratch memory, and inputs that end inside a
+		// multi-byte sequence right after a word: what the second kind yields must not depend on the first
+		// a whole document shorter than one read chunk (then the bytes behind the end of the input are not the input's
+		// own), so that its last word is a known word of a text that matches
+		var shortDocs []int
+		for i, f := range assets() {
+			if len(f.Content) >= 200 && len(f.Content) <= 900 {
+				shortDocs = append(shortDocs, i)
+			}
+		}
+		sd := shortDocs[lib.IntN(t, 0, len(shortDocs)-1, "truncDoc")]
+		d := assets()[sd].Content
+		c.Corpus.Docs = append(c.Corpus.Docs, sd)
+		d = bytes.TrimRight(d, " \t\r\n.,;:")
+		base := len(c.Pool)
+		c.Pool = append(c.Pool,
+			recipe{Segs: []seg{{Kind: "raw", Raw: []byte(strings.Repeat("é", lib.IntN(t, 600, 1500, "eRun")))}}},
+			recipe{Segs: []seg{{Kind: "raw", Raw: append(append([]byte{}, d...), 0xc3)}}},
+			recipe{Segs: []seg{{Kind: "raw", Raw: []byte("x" + strings.Repeat("é", lib.IntN(t, 600, 1500, "eRun2")))}}},
+			recipe{Segs: []seg{{Kind: "raw", Raw: append(append([]byte{}, d[:len(d)-lib.IntN(t, 1, 7, "cut")]...), 0xe2, 0x80)}}})
+		for _, k := range []int{1, 0, 1, 2, 1, 3, 0, 3, 2, 3} {
+			c.Ops = append(c.Ops, c04Op{Kind: lib.PickStr(t, []string{"match", "match", "matchfrom", "normalize"}, "specialKind"), I: base + k, Chunk: 1024})
+		}
+		c.Ops = append(c.Ops, c04Op{Kind: "match", I: base + 1}, c04Op{Kind: "match", I: base + 3})
+	case 1:
+		// spelling variants: Normalize sees (and may record) the variant spelling, Match must still map it
+		a := assets()
+		d := string(a[lib.IntN(t, 0, len(a)-1, "spellDoc")].Content)
+		for _, p := range c06Spellings {
+			d = strings.Replace(d, p[1], p[0], -1)
+		}
+		base := len(c.Pool)
+		c.Pool = append(c.Pool, recipe{Segs: []seg{{Kind: "raw", Raw: []byte(d)}}})
+		c.Ops = append(c.Ops, c04Op{Kind: "normalize", I: base}, c04Op{Kind: "match", I: base}, c04Op{Kind: "normalize", I: base}, c04Op{Kind: "matchfrom", I: base, Chunk: 7})
+	}
 	return c
 }
 
@@ -146,8 +183,14 @@ func c04HistCheck(ci interface{}) lib.Outcome {
 	ref := make([]Results, len(c.Pool))
 	refS := make([]string, len(c.Pool))
 	multi := false
+	// The reference results are taken right after a plain ASCII text has been matched (on a throw-away instance), so
+	// that whatever scratch memory the package might reuse between calls holds nothing an input could pick up.
+	scrub := bytes.Repeat([]byte("plain ascii filler words only "), 120)
+	scrubber := NewClassifier(c.Thr)
 	for i, r := range c.Pool {
 		inputs[i] = r.build(cl)
+		scrubber.Match(scrub)
+		scrubber.Normalize(scrub)
 		ref[i] = cl.Match(inputs[i])
 		refS[i] = resultString(ref[i])
 		if len(ref[i].Matches) > 1 {
@@ -191,7 +234,7 @@ func c04HistCheck(ci interface{}) lib.Outcome {
 				repeatedAfterDisturbance = true
 			}
 		case "normalize":
-			if op.I%3 == 0 {
+			if op.I%3 == 0 && op.I < 30 {
 				cl.Normalize(c04NewWordsText(op.I)) // adds new words to the dictionary
 			} else {
 				cl.Normalize(inputs[i])
@@ -646,7 +689,7 @@ func c04RepWords(ws []int, vocab int) string {
 }
 
 func c04RepGen(t *rapid.T) interface{} {
-	c := &c04Rep{Thr: lib.PickFloat(t, []float64{0.5, 0.6, 0.7, 0.75, 0.8}, "thr"), Vocab: lib.IntN(t, 6, 24, "vocab"), Times: 25}
+	c := &c04Rep{Thr: lib.PickFloat(t, []float64{0.5, 0.6, 0.7, 0.75, 0.8, 0.8, 0.9}, "thr"), Vocab: lib.PickInt(t, []int{6, 8, 10, 10, 12, 15, 15, 20, 20, 24}, "vocab"), Times: 25}
 	// document: random words with copy-pasted runs
 	n := lib.IntN(t, 20, 70, "ndoc")
 	for len(c.Doc) < n {
@@ -711,6 +754,14 @@ func c04RepCheck(ci interface{}) lib.Outcome {
 		if k%3 == 0 {
 			cc = build() // a separately built instance must agree as well
 		}
+		switch k % 5 {
+		case 1: // tracing enabled for this license (thread-safe no-op tracer): must not change the result
+			cc.SetTraceConfiguration(&TraceConfiguration{TracePhases: "tokenize", TraceLicenses: "*", Tracer: func(string, ...interface{}) {}})
+		case 2:
+			cc.SetTraceConfiguration(&TraceConfiguration{TracePhases: "*", TraceLicenses: "License/Rep/license.txt", Tracer: func(string, ...interface{}) {}})
+		case 3:
+			cc.SetTraceConfiguration(nil)
+		}
 		got := cc.Match(in)
 		if s := resultString(got); s != fs {
 			return lib.Outcome{Violation: fmt.Sprintf("threshold %v, document %q, input %q: call %d differs from call 1\n%s", c.Thr, doc, in, k+1, diffResults(first, got))}
@@ -723,6 +774,6 @@ func c04RepCheck(ci interface{}) lib.Outcome {
 
 func TestVerif_C04_Repetitive(t *testing.T) {
 	lib.Run(t, lib.Spec{ID: "C04", Part: "repetitive",
-		Rule: "a corpus of one synthetic document over a vocabulary of 6-24 words that repeats its own word runs (copy-pasted runs of 2-8 words), thresholds 0.5-0.8; input = the document with deletions, OOV insertions, substitutions and inserted runs, in noise; Match is repeated 25 times on the same classifier and on separately built instances: all calls identical; non-trivial = a license match is reported",
+		Rule: "a corpus of one synthetic document over a vocabulary of 6-24 words that repeats its own word runs (copy-pasted runs of 2-8 words), thresholds 0.5-0.8; input = the document with deletions, OOV insertions, substitutions and inserted runs, in noise; Match is repeated 25 times on the same classifier and on separately built instances, with tracing switched on and off in between: all calls identical; non-trivial = a license match is reported",
 		New:  func() interface{} { return &c04Rep{} }, Gen: c04RepGen, Check: c04RepCheck})
 }
